@@ -172,6 +172,10 @@ func TestVerifNodex(t *testing.T) {
 	if run.Replay != "" {
 		run.LoadReplay(&rp)
 		c := newC(cfgs[rp.Cfg])
+		if msg := c.Check(); msg != "" {
+			res.Violate(nxKey(msg), msg, map[string]interface{}{"path": []uint32{}, "cfg": rp.Cfg})
+			return
+		}
 		for i, e := range rp.Path {
 			if msg := c.Step(e); msg != "" {
 				res.Violate(nxKey(msg), msg, map[string]interface{}{"path": rp.Path[:i+1], "cfg": rp.Cfg})
